@@ -51,12 +51,27 @@ ASSUMPTIONS = ['IEEE overflow is outside the property: non-finite output of the 
                'about the modelled formulas']
 
 TOL_REL = 1e-9
+NODE_KINDS = ('trans', 'rscale', 'rscale0', 'lscale', 'ssum', 'quad', 'bregman', 'dconj', 'sep',
+              'proximal_composition')
+LEAF_KINDS = ('L1Norm', 'L2Norm', 'L2NormSquared', 'LpNorm', 'IndicatorLpUnitBall',
+              'ConstantFunctional', 'ZeroFunctional', 'IndicatorBox', 'IndicatorNonnegativity',
+              'IndicatorZero', 'KullbackLeibler', 'KullbackLeiblerConvexConj',
+              'KullbackLeiblerCrossEntropy', 'KullbackLeiblerCrossEntropyConvexConj',
+              'IndicatorSimplex', 'IndicatorSumConstraint', 'Huber', 'GroupL1Norm',
+              'IndicatorGroupL1UnitBall', 'NuclearNorm', 'IndicatorNuclearNormUnitBall',
+              'proximal_l1', 'proximal_l2', 'proximal_l2_squared', 'proximal_l1_l2',
+              'proximal_convex_conj_l1', 'proximal_convex_conj_l2', 'proximal_convex_conj_l2_squared',
+              'proximal_convex_conj_l1_l2', 'proximal_convex_conj_kl',
+              'proximal_convex_conj_kl_cross_entropy')
 EXPECTED_BRANCHES = (['steps/{}/{}'.format(f, n) for f in ('list', 'tuple', 'array')
                       for n in ('sep', 'lscale', 'rscale', 'trans', 'lscale-int', 'lscale-np')] +
                      ['steps/elements/sep', 'steps/elements/lscale', 'steps/elements/rscale',
                       'steps/elements/trans', 'sigma/float', 'sigma/pointwise',
                       'model/comp', 'model/err:ValueError', 'model/err:TypeError',
-                      'model/unsupported', 'functional/bregman', 'functional/rscale0'])
+                      'model/unsupported', 'functional/bregman', 'functional/rscale0'] +
+                     ['{}/{}'.format(st, kd) for st in ('convention/out', 'convention/aliased',
+                                                        'history/same-instance')
+                      for kd in LEAF_KINDS + NODE_KINDS])
 MODEL_TOKENS = {'l1', 'l1l2', 'l2', 'l2sq', 'ccl1', 'ccl1l2', 'ccl2sq', 'box', 'const', 'izero', 'linf',
                 'cclinf', 'simplex', 'sumc', 'huber', 'huberg', 'klcc', 'trans', 'argscale', 'lscale', 'quad',
                 'conj', 'sep', 'nil', 'comp'}
@@ -993,6 +1008,35 @@ def check_case(case, sg, xlist, rng, deep=0, sk=None):
     if not np.array_equal(flat(x), x0):
         probs.append(('input-modified', 'x was modified by the call'))
     info['nontrivial'] = bool(np.any(pf != x0))
+    # calling conventions: prox(x), prox(x, out=y) with y prefilled with NaN, prox(x, out=x) on a
+    # copy must return the same point (before the minimiser oracle judges one of them)
+    ctol = 1e-10 * max(1.0, float(np.max(np.abs(pf))) if pf.size else 1.0)
+    for conv in ('out', 'aliased'):
+        try:
+            if conv == 'out':
+                y = unflat(S, np.full(pf.size, np.nan))
+                r = P(x, out=y)
+                got = flat(y)
+                if r is not y:
+                    probs.append(('convention-out', 'prox(x, out=y) did not return y'))
+            else:
+                xc = x.copy()
+                P(xc, out=xc)
+                got = flat(xc)
+        except Exception as e:  # noqa
+            probs.append(('convention-' + conv, 'prox(x, out={}) raised {}: {}'.format(
+                'y' if conv == 'out' else 'x', type(e).__name__, str(e)[:120])))
+            continue
+        info.setdefault('conventions', []).append(conv)
+        bad = ~(np.abs(got - pf) <= ctol)      # NaN left in out counts as a difference
+        if np.any(bad):
+            i = int(np.argmax(bad))
+            probs.append(('convention-' + conv,
+                          'prox(x, out={}) differs from prox(x) at {} entries, first index {}: {!r} '
+                          'vs {!r}'.format('y (NaN-prefilled)' if conv == 'out' else 'x (aliased)',
+                                           int(bad.sum()), i, float(got[i]), float(pf[i]))))
+    if not np.array_equal(flat(x), x0):
+        probs.append(('input-modified', 'x was modified by prox(x, out=y)'))
     # the step as an element for the quadratic term
     if np.isscalar(sg):
         sg_q = float(sg)
@@ -1021,6 +1065,19 @@ def check_case(case, sg, xlist, rng, deep=0, sk=None):
             probs.append(('raises', 'f.proximal(sigma)(y) raised {} at y = {}'.format(
                 type(e).__name__, [round(v, 4) for v in y[:8]])))
             return probs, info
+    # history: the same operator instance, after other inputs, must reproduce prox(x)
+    try:
+        again = flat(P(x))
+        info['history'] = True
+        bad = ~(np.abs(again - pf) <= ctol)
+        if np.any(bad):
+            i = int(np.argmax(bad))
+            probs.append(('history', 'the same proximal instance returned {!r} instead of {!r} at '
+                          'index {} when called on x again after {} other inputs'.format(
+                              float(again[i]), float(pf[i]), i, len(qs))))
+    except Exception as e:  # noqa
+        probs.append(('history', 'second call of the same instance raised {}'.format(
+            type(e).__name__)))
     if case.moreau is None:
         feval = case.feval
         try:
@@ -1347,6 +1404,13 @@ def run(ctx, deep=False):
             ctx.hit('functional/' + lf)
         ctx.hit('space/' + (case.skey if not case.skey.startswith('sep(') else 'separable-sum'))
         ctx.hit('sigma/' + sk)
+        kinds = set([leaf_of(case.spec)[0]] + [l for l in case.leaves if l in NODE_KINDS]) \
+            if case.spec[0] != 'sep' else set(['sep'] + [leaf_of(sp_)[0] for sp_ in case.spec[1]])
+        for kd in kinds:
+            for conv in info.get('conventions', []):
+                ctx.hit('convention/{}/{}'.format(conv, kd))
+            if info.get('history'):
+                ctx.hit('history/same-instance/' + kd)
         if case.list_sigma and sk in STEP_FORMS:
             for lf in case.leaves:
                 if lf in ('trans', 'rscale', 'lscale', 'ssum', 'sep'):
